@@ -373,8 +373,12 @@ class Interpreter:
                 # Deprecated since 1.4.0
                 self._raise_event(MetaEvent('delayed event sent', event=event))
         elif isinstance(event, MetaEvent):
-            for listener in self._listeners:
-                listener(event)
+            # A listener may attach or detach listeners: iterate on a copy (otherwise a listener
+            # is skipped when a previous one is detached meanwhile), and do not notify a listener
+            # that has been detached meanwhile
+            for listener in list(self._listeners):
+                if listener in self._listeners:
+                    listener(event)
         else:
             raise ValueError(
                 'Only InternalEvent and MetaEvent can be sent by a statechart, not {}'.format(
